@@ -36,9 +36,14 @@ def pick_int(r, lo, hi):
     return r.randint(lo, hi)
 
 
+ENUM_CASES = ["SHOUTY_CASE", "kCamelCase", "SHOUTY_CASE, kCamelCase", "kCamelCase, SHOUTY_CASE"]
+
+
 class EnumDef:
-    def __init__(self, name, items, max_bits=None, signed=False):
+    def __init__(self, name, items, max_bits=None, signed=False, case=None, vcase=None):
         self.name, self.items, self.max_bits, self.signed = name, items, max_bits, signed
+        self.case = case            # [(cpp) $default enum_case: ...] on the enum
+        self.vcase = vcase or {}    # value name -> [(cpp) enum_case: ...] on that value
 
     def render(self):
         L = ["enum %s:" % self.name]
@@ -46,9 +51,56 @@ class EnumDef:
             L.append("  [maximum_bits: %d]" % self.max_bits)
         if self.signed:
             L.append("  [is_signed: true]")
+        if self.case:
+            L.append('  [(cpp) $default enum_case: "%s"]' % self.case)
         for n, v in self.items:
             L.append("  %s = %d" % (n, v))
+            if n in self.vcase:
+                L.append('    [(cpp) enum_case: "%s"]' % self.vcase[n])
         return L
+
+    def randomize_case(self, r):
+        k = r.random()
+        self.case = r.choice(ENUM_CASES) if k < 0.6 else None
+        self.vcase = {n: r.choice(ENUM_CASES) for n, _ in self.items if r.random() < 0.25}
+
+
+# bit patterns that exercise the float text format: zeros, denormals, extremes, infinities,
+# quiet / signalling NaNs with and without the sign bit and with payloads
+F32_POOL = [0x00000000, 0x80000000, 0x00000001, 0x80000001, 0x007fffff, 0x807fffff, 0x00800000, 0x7f7fffff, 0xff7fffff,
+            0x7f800000, 0xff800000, 0x7fc00000, 0xffc00000, 0x7f800001, 0xff800001, 0x7fffffff, 0xffffffff, 0x7fa5a5a5,
+            0xffc12345, 0xff800100, 0x3f800000, 0xbf800000, 0x3dcccccd, 0x40490fdb, 0x4b800000, 0x501502f9, 0x2edbe6ff]
+F64_POOL = [0x0000000000000000, 0x8000000000000000, 0x0000000000000001, 0x8000000000000001, 0x000fffffffffffff,
+            0x800fffffffffffff, 0x0010000000000000, 0x7fefffffffffffff, 0xffefffffffffffff, 0x7ff0000000000000,
+            0xfff0000000000000, 0x7ff8000000000000, 0xfff8000000000000, 0x7ff0000000000001, 0xfff0000000000001,
+            0x7fffffffffffffff, 0xffffffffffffffff, 0x7ff5a5a5a5a5a5a5, 0xfff8000000012345, 0xfff0000100000000,
+            0x3ff0000000000000, 0xbff0000000000000, 0x3fb999999999999a, 0x400921fb54442d18, 0x4340000000000000,
+            0x7e37e43c8800759c, 0x01a56e1fc2f8f359]
+
+
+def float_text(pattern, nbits, grouping):
+    """Reference (python) rendering of WriteFloatToTextStream: NaN(payload in hex) / Inf / %.9g / %.17g."""
+    import struct
+    if nbits == 32:
+        sign, exp, man = pattern >> 31, (pattern >> 23) & 0xff, pattern & 0x7fffff
+        special = exp == 0xff
+    else:
+        sign, exp, man = pattern >> 63, (pattern >> 52) & 0x7ff, pattern & 0xfffffffffffff
+        special = exp == 0x7ff
+    if special and man:
+        h = "%x" % man
+        if grouping:
+            parts = []
+            while h:
+                parts.insert(0, h[-4:])
+                h = h[:-4]
+            h = "_".join(parts)
+        return ("-" if sign else "") + "NaN(0x" + h + ")"
+    if special:
+        return "-Inf" if sign else "Inf"
+    if nbits == 32:
+        return "%.9g" % struct.unpack("<f", struct.pack("<I", pattern))[0]
+    return "%.17g" % struct.unpack("<d", struct.pack("<Q", pattern))[0]
 
 
 class F:
@@ -76,6 +128,7 @@ class SDef:
         self.name, self.is_bits, self.fields = name, is_bits, []
         self.max_size = 0     # in own units (bytes, or bits for `bits`)
         self.flat = True      # static non-overlapping layout, no conditions (used by the update tie)
+        self.has_float = False
 
 
 def _type_text(f):
@@ -88,6 +141,8 @@ def _type_text(f):
         return "Bcd"
     if k == "flag":
         return "Flag"
+    if k == "float":
+        return "Float"
     if k == "enum":
         return f.enum.name
     if k in ("struct", "bits"):
@@ -100,14 +155,23 @@ def _start_text(s):
 
 
 class TextModule:
-    def __init__(self, rng, n_structs=3, flat_only=False):
+    def __init__(self, rng, n_structs=3, flat_only=False, with_floats=True):
         self.r = rng
         self.byte_order = rng.choice(["LittleEndian", "BigEndian"])
         self.enums = []
         self.sdefs = []      # all structure definitions, in declaration order
         self.tops = []       # names of structures to instantiate
         self.uid = 0
+        self.default_case = rng.choice(ENUM_CASES) if rng.random() < 0.5 else None
         self._enums()
+        for e in self.enums:
+            e.randomize_case(rng)
+        if rng.random() < 0.5:
+            # an enum that is generated ONLY in kCamelCase (no SHOUTY_CASE enumerator exists in C++)
+            rng.choice(self.enums).case = "kCamelCase"
+        self.float_tops = []
+        if with_floats:
+            self.float_tops.append(self.float_struct("Fl0").name)
         for i in range(n_structs):
             if flat_only or rng.random() < 0.3:
                 s = self.flat_struct("Flat%d" % i)
@@ -241,6 +305,47 @@ class TextModule:
         self.sdefs.append(s)
         return s
 
+    # ---- structure with Float fields (C++ side only: the float text is not modelled) ----
+    def float_struct(self, name):
+        r = self.r
+        s = SDef(name)
+        s.flat = False
+        s.has_float = True
+        pos = 0
+        tag = F(self.nm("tag"), "uint", start=pos, size=1, control=(0, 1))
+        s.fields.append(tag)
+        pos += 1
+        for _ in range(r.randint(3, 6)):
+            n = r.choice([4, 8])
+            s.fields.append(F(self.nm("x"), "float", start=pos, size=n, attr=r.choice([None, None, "Emit"])))
+            pos += n
+            if r.random() < 0.3:
+                f, m = self.scalar(8, 4)
+                f.start = pos
+                s.fields.append(f)
+                pos += m
+        n = r.choice([4, 8])
+        s.fields.append(F(self.nm("x"), "float", start=pos, size=n, cond=("eq", tag.name, 1)))
+        pos += n
+        n, c = r.choice([4, 8]), r.randint(1, 4)
+        s.fields.append(F(self.nm("xs"), "array", start=pos, size=n * c, elem=F("e", "float", size=n), count=c))
+        pos += n * c
+        if r.random() < 0.6:
+            inner = SDef(self.nm("FlIn"))
+            inner.has_float = True
+            ip = 0
+            for _ in range(r.randint(1, 3)):
+                n = r.choice([4, 8])
+                inner.fields.append(F(self.nm("y"), "float", start=ip, size=n))
+                ip += n
+            inner.max_size = ip
+            self.sdefs.append(inner)
+            s.fields.append(F(self.nm("in"), "struct", start=pos, size=ip, sdef=inner))
+            pos += ip
+        s.max_size = pos
+        self.sdefs.append(s)
+        return s
+
     # ---- rich structure ----------------------------------------------------------
     def rich_struct(self, name):
         r = self.r
@@ -369,6 +474,8 @@ class TextModule:
     # ---- source ------------------------------------------------------------------
     def text(self):
         L = ['[$default byte_order: "%s"]' % self.byte_order, '[(cpp) namespace: "m"]']
+        if self.default_case:
+            L.append('[(cpp) $default enum_case: "%s"]' % self.default_case)
         for e in self.enums:
             L += e.render()
         for s in self.sdefs:
@@ -402,7 +509,7 @@ class TextModule:
             elif f.kind == "array":
                 e = f.elem
                 et = _type_text(e)
-                if e.kind in ("uint", "int", "bcd", "enum"):
+                if e.kind in ("uint", "int", "bcd", "enum", "float"):
                     et += ":%d" % (e.size * 8)
                 if isinstance(f.count, int):
                     L.append("%s%s [+%d]  %s[%d]  %s" % (pre, _start_text(f.start), f.size, et, f.count, f.name))
@@ -556,6 +663,9 @@ class TextModule:
             assert -(2**(n - 1)) <= v < 2**(n - 1), (f.name, n, v)
         elif f.kind == "bcd":
             assert 0 <= v < 10**(n // 4), (f.name, n, v)
+        if f.kind == "float":
+            assert 0 <= v < 2**n, (f.name, n, v)
+            return v
         if f.kind == "flag":
             return 1 if v else 0
         if f.kind == "bcd":
@@ -569,6 +679,9 @@ class TextModule:
 
     def _scalar_value(self, f, r):
         n = f.nbits()
+        if f.kind == "float":
+            pool = F32_POOL if n == 32 else F64_POOL
+            return r.choice(pool) if r.random() < 0.8 else r.getrandbits(n)
         if f.kind == "flag":
             return r.random() < 0.5
         if f.kind == "uint":
